@@ -236,6 +236,13 @@ class Ctx:
 # ---------------------------------------------------------------------------------------------
 # known findings / verdict / evidence
 
+def load_known_fns():
+    p = os.path.join(VERIF, "rules", "known_fns.json")
+    if not os.path.exists(p):
+        return None
+    return set(json.load(open(p)))
+
+
 def load_known():
     p = os.path.join(VERIF, "known_findings.json")
     if not os.path.exists(p):
@@ -258,7 +265,7 @@ def run_property(prop, tier, replay=None):
     flags = repo_rustflags()
     for cfg in configs:
         d = extract(cfg, key)
-        w = facts.load_dir(d)
+        w = facts.load_dir(d, known=load_known_fns())
         nbodies[cfg] = len(w.bodies)
         ctx = Ctx(w, prop, cfg, strict=(cfg == "all"), rustflags=flags)
         mod.run(ctx)
